@@ -873,7 +873,7 @@ def u18(ctx, rid):
     exits = [bb for (bb, k, _) in core.exit_defs(f) if k in ('ok', 'fwd') and bb in f.reachable()]
     if not apps or not exits:
         raise core.AnchorLost('append / ok exits in Blob::delete')
-    free = f.reach_from([0], avoid_exit=apps, avoid_enter=cond)
+    free = core.reach_from_cp(f, [0], avoid_exit=apps, avoid_enter=cond)
     skipped = [e for e in exits if e in free and not any(e in f.reach_from(f.after(a)) and e not in f.reach_from([0], avoid_exit=[a]) for a in apps)]
     skipped = [e for e in exits if e in free]
     if not cond:
